@@ -21,6 +21,7 @@ import (
 	"github.com/gardenbed/emerge/internal/ebnf/parser/spec"
 	"github.com/gardenbed/emerge/zz_verif/gen"
 	"github.com/gardenbed/emerge/zz_verif/simrt"
+	simctl "github.com/moorara/algo/zz_simctl"
 )
 
 const filename = "SPEC.ebnf"
@@ -341,6 +342,7 @@ func firstDiff(a, b string) string {
 
 func (e Engine) Run(t *simrt.Tape, c simrt.Case, x *simrt.Ctx) *simrt.Result {
 	res := simrt.NewResult()
+	simctl.Begin(simctl.Sorted, c.Seed) // the dependency's clock-seeded PRNGs follow the case seed: exact replay
 	B := ebnflexer.VerifBufferSize
 	kind := c.Args[0]
 
